@@ -1297,6 +1297,9 @@ func (f *repeatFn) Apply(tx *SQLTx, params []TypedValue) (TypedValue, error) {
 	if n <= 0 {
 		return NewVarchar(""), nil
 	}
+	if n > maxPadLength || int64(len(s))*n > maxPadLength {
+		return nil, fmt.Errorf("%w: '%s' result exceeds %d bytes", ErrIllegalArguments, RepeatFnCall, maxPadLength)
+	}
 	return NewVarchar(strings.Repeat(s, int(n))), nil
 }
 
@@ -1404,6 +1407,9 @@ func (f *padFn) RequiresType(t SQLValueType, cols map[string]ColDescriptor, para
 	}
 	return nil
 }
+// maxPadLength bounds the result of LPAD/RPAD
+const maxPadLength = 1 << 20
+
 func (f *padFn) Apply(tx *SQLTx, params []TypedValue) (TypedValue, error) {
 	if len(params) < 2 || len(params) > 3 {
 		return nil, fmt.Errorf("%w: LPAD/RPAD expects 2-3 arguments", ErrIllegalArguments)
@@ -1419,6 +1425,12 @@ func (f *padFn) Apply(tx *SQLTx, params []TypedValue) (TypedValue, error) {
 	}
 	if fill == "" {
 		fill = " "
+	}
+	if length < 0 {
+		length = 0
+	}
+	if length > maxPadLength {
+		return nil, fmt.Errorf("%w: LPAD/RPAD length exceeds %d", ErrIllegalArguments, maxPadLength)
 	}
 	for int64(len(s)) < length {
 		if f.isRight {
